@@ -257,10 +257,33 @@ func (m *Model) ruleDONE(r *Results) {
 			if f == fn || !isBuiltinCall(c, "close") {
 				return
 			}
-			if m.derivesFromField(c.Common().Args[0], "DoneChan", 0, map[ssa.Value]bool{}) {
+			closesDone := m.derivesFromField(c.Common().Args[0], "DoneChan", 0, map[ssa.Value]bool{})
+			goroutineBody := f.Parent() != nil
+			if p, ok := stripConv(c.Common().Args[0]).(*ssa.Parameter); ok && !closesDone {
+				// a named goroutine function that is handed the caller's done channel
+				callers := m.staticCallersOf(f)
+				all, allGo := len(callers) > 0, len(callers) > 0
+				for _, cl := range callers {
+					idx := -1
+					for i, q := range f.Params {
+						if q == p {
+							idx = i
+						}
+					}
+					if idx < 0 || idx >= len(cl.Common().Args) || !m.derivesFromField(cl.Common().Args[idx], "DoneChan", 0, map[ssa.Value]bool{}) {
+						all = false
+					}
+					if _, isGo := cl.(*ssa.Go); !isGo {
+						allGo = false
+					}
+				}
+				closesDone = all
+				goroutineBody = allGo
+			}
+			if closesDone {
 				nCoalesce++
 				// must be in a goroutine body that first receives from per-collection channels, once
-				r.check(f.Parent() != nil && !inCycle(c.Block()), rule, m.declName(f)+" / coalesced close", m.instrPos(c), "the caller's done channel is closed once, by the coalescing goroutine", "the caller's done channel may be closed more than once or outside the coalescing goroutine")
+				r.check(goroutineBody && !inCycle(c.Block()), rule, m.declName(f)+" / coalesced close", m.instrPos(c), "the caller's done channel is closed once, by the coalescing goroutine", "the caller's done channel may be closed more than once or outside the coalescing goroutine")
 			}
 		})
 	}
@@ -970,7 +993,7 @@ func (m *Model) ruleVIEWMARK(r *Results) {
 	}
 	n := 0
 	for _, tc := range m.txnClosures() {
-		if tc.Kind != "runner" || tc.Fn == a.AllocClos {
+		if tc.Kind != "runner" || tc.Fn == a.AllocClos || tc.Fn == a.AllocOuter {
 			continue
 		}
 		reach := m.reachableLocal(tc.Fn)
